@@ -681,6 +681,52 @@ pub fn run_c03(ctx: &Ctx) -> i32 {
             out.distinct.insert(case.key());
         }
     });
+    // multi-thread encodes whose MD5 helper thread lags behind: cheap blocks (the feeder is never
+    // held up by the workers), the helper slowed down at the hook (or the feeder, so that the
+    // helper idles), and block counts on both sides of the 16-slot queue between them - the input
+    // may end while the queue is full, nearly full, or holds nothing but the stop marker
+    let n = ctx.tier.pick(320, 12_000);
+    for (pi, pol) in [crate::sched::Policy::SlowHasher, crate::sched::Policy::SlowFeeder].into_iter().enumerate() {
+        crate::sched::perturb_only(Some(pol), ctx.seed);
+        run_cases(ctx, "hashlag", n / 2, &mut out, |idx, out| {
+            let mut rng = Rng::for_case(ctx.seed, "C03.hashlag", idx * 2 + pi as u64);
+            let bps = *rng.pick(&gen::WIDTHS);
+            let channels = *rng.pick(&[1usize, 2, 2, 3, 8]);
+            let block = *rng.pick(&[32usize, 33, 48, 64]);
+            // 1..=40 blocks, every count around the queue capacity and twice the capacity in turn
+            let blocks = match idx % 4 {
+                0 => 12 + (idx as usize / 4) % 10,
+                1 => 28 + (idx as usize / 4) % 10,
+                _ => 1 + rng.usize_below(40),
+            };
+            let len = blocks * block - if idx % 3 == 0 { rng.usize_below(block) } else { 0 };
+            let mut samples = vec![0i32; len * channels];
+            for b in 0..blocks {
+                let v = rng.range(gen::smin(bps) as i64, gen::smax(bps) as i64) as i32;
+                for t in b * block..((b + 1) * block).min(len) {
+                    for c in 0..channels {
+                        samples[t * channels + c] = v;
+                    }
+                }
+            }
+            let mut cfg = config::Encoder::default();
+            cfg.multithread = true;
+            cfg.workers = NonZeroUsize::new(*rng.pick(&[1usize, 2, 4, 8, 8, 16, 24]));
+            cfg.block_size = block;
+            let mode = *rng.pick(&[FillMode::Int, FillMode::Bytes, FillMode::Mixed]);
+            let case = Case { audio: Arc::new(Audio { channels, bps, rate: 44100, samples, recipe: format!("{blocks} constant blocks, {pol:?}") }), cfg, block, mode, hint: rng.flip() };
+            match observe(&case) {
+                Ok(obs) => {
+                    out.evaluations += 1;
+                    out.count(if pi == 0 { "hashlag_slow_hasher" } else { "hashlag_slow_feeder" });
+                    oracle_c03(ctx, "hashlag", idx * 2 + pi as u64, &case, &obs, out);
+                    out.distinct.insert(case.key());
+                }
+                Err(e) => report_obs_err(ctx, "hashlag", idx * 2 + pi as u64, &case, &e, out),
+            }
+        });
+    }
+    crate::sched::perturb_only(None, 0);
     // a caller-driven loop (FrameBuf + Context + frame-level encodes) that refreshes a provisional
     // STREAMINFO after every block: md5_digest() / total_samples() are asked for BETWEEN the fills;
     // what is stated after the last block must be the MD5 / total of everything delivered, for
